@@ -228,7 +228,9 @@ def extend(ch):
     sidx = st.one_of(st.none(), st.integers(-12, 12))
     return st.one_of(
         st.fixed_dictionaries({"op": st.just("inv"), "a": ch}),
+        st.fixed_dictionaries({"op": st.just("inv"), "a": st.fixed_dictionaries({"op": st.just("cat"), "a": ch, "b": ch})}),
         st.fixed_dictionaries({"op": st.just("cat"), "a": ch, "b": ch}),
+        st.fixed_dictionaries({"op": st.just("cat"), "a": st.fixed_dictionaries({"op": st.just("cat_l"), "a": ch, "raw": raw_l}), "b": ch}),
         st.fixed_dictionaries({"op": st.just("cat_r"), "a": ch, "raw": raw_r}),
         st.fixed_dictionaries({"op": st.just("cat_l"), "a": ch, "raw": raw_l}),
         st.fixed_dictionaries({"op": st.just("slice"), "a": ch, "start": sidx, "stop": sidx,
@@ -237,7 +239,7 @@ def extend(ch):
     )
 
 
-s_tree = st.recursive(leaf, extend, max_leaves=10)
+s_tree = st.recursive(leaf, extend, max_leaves=24)
 
 
 def depth(t):
